@@ -27,7 +27,7 @@ META = dict(
 CLASSES = ["Waves", "WavesReciprocal", "Images", "DiffractionPatterns", "DiffractionPatternsUnshifted", "RealSpaceLineProfiles", "ReciprocalSpaceLineProfiles",
            "PolarMeasurements", "MeasurementsEnsemble", "PotentialArray", "SMatrixArray"]
 AXES = ["none", "ordinal", "scan", "tilt", "positions", "fp", "thickness", "parameter", "ordinal+scan", "flags"]
-METAS = ["empty", "tuple", "nested", "npscalar", "nparray", "none"]
+METAS = ["empty", "tuple", "nested", "npscalar", "nparray", "none", "mixed"]
 
 
 def check(ctx):
@@ -35,7 +35,7 @@ def check(ctx):
     cases = []
     for cls, ax in itertools.product(CLASSES, AXES):
         for meta, lazy, store in itertools.product(METAS, (False, True), ("dir", "zip")):
-            if q and not (meta == METAS[(CLASSES.index(cls) + AXES.index(ax)) % len(METAS)] or (meta == "nested" and ax == "ordinal")):
+            if q and not (meta == METAS[(CLASSES.index(cls) + AXES.index(ax)) % 6] or (meta in ("nested", "mixed") and ax in ("ordinal", "scan"))):
                 continue
             if q and lazy != ((CLASSES.index(cls) + AXES.index(ax)) % 2 == 0) and ax not in ("ordinal", "tilt"):
                 continue
@@ -69,7 +69,9 @@ def make_axes(kind):
 
 def make_meta(kind):
     return {"empty": {}, "tuple": {"pair": (1.0, 2.0), "label": "intensity"}, "nested": {"outer": {"inner": [1, 2, {"deep": 3.5}]}, "flag": True},
-            "npscalar": {"value": np.float32(1.25), "count": np.int64(7)}, "nparray": {"vector": np.array([1.0, 2.0, 3.0])}, "none": {"nothing": None, "x": 1}}[kind]
+            "npscalar": {"value": np.float32(1.25), "count": np.int64(7)}, "nparray": {"vector": np.array([1.0, 2.0, 3.0])}, "none": {"nothing": None, "x": 1},
+            # sequences whose FIRST element is a scalar and a later one a tuple / list (and the reverse)
+            "mixed": {"roi": ("rect", (0, 0), (4, 4)), "marks": [3, (1, 2)], "deep": [(1, 2), "x", [(3,), 4.5]], "late": (1, 2, [3, (4, 5)])}}[kind]
 
 
 def make(c):
